@@ -162,8 +162,55 @@ def run(run):
     for r in readers.values():
         with env.quiet():
             r.close()
+    # the same refusals on a reader that has SERVED reads of every kind first (lines, slices, traces, headers, every stored header array):
+    # what a reader keeps from earlier answers must not turn a position outside the real extent into an item
+    for fi, fc in enumerate(cases):
+        mine = [(op, a, ans) for (fj, op, a), ans in zip(calls, answers) if fj == fi and classify(ans) != 'inrange']
+        mine = [x for k, x in enumerate(mine) if x[0] in ('gen_trace_header', 'get_trace') or k % 5 == 0]
+        if not mine:
+            continue
+        for order in ('reads-first', 'arrays-first'):
+            with env.quiet():
+                r = warm_reader(fc, order)
+            for op, a, ans in (mine if order == 'reads-first' else [x for x in mine if x[0] in ('gen_trace_header', 'get_trace')]):
+                case = {'file': fc.label, 'op': op, 'args': a, 'warm': order, 'F': {k2: fc.F[k2] for k2 in ('dim', 'n', 'b', 'ub')}}
+                run.case(case)
+                with env.quiet():
+                    out = readcalls.invoke(r, op, a)
+                ok, detail = readcalls.compare(out, ans['alts'], fc.ref,
+                                               header_of=lambda t, fc=fc, ans=ans: fc.header([x for x in ans['alts'] if x['kind'] == 'header'][0]['grid']))
+                run.check(ok, f'C14.no-unreal-data-after-reads[{op}]', case, detail, [x.get('exc', x['kind']) for x in ans['alts']])
+            with env.quiet():
+                r.close()
     run.extra['files'] = [c.label for c in cases]
     accessor_calls(run, cases)
+
+
+def warm_reader(fc, order='reads-first'):
+    """a reader that has answered one valid call of every kind, and returned every stored header array (before or after them)"""
+    from seismic_zfp.read import SgzReader
+    r = SgzReader(fc.path)
+    ni, nx, nz = fc.F['n']
+    tc = readcalls.tracecount(fc.F)
+    NONE = readcalls.NONE
+    if fc.F['dim'] == 2:
+        warm = [('get_trace', [0, NONE, NONE]), ('get_trace', [nx - 1, NONE, NONE]), ('read_subplane', [0, nx, 0, nz]), ('gen_trace_header', [nx - 1])]
+    else:
+        warm = [('read_inline', [ni - 1]), ('read_crossline', [nx - 1]), ('read_zslice', [nz - 1]), ('get_trace', [tc - 1, NONE, NONE]),
+                ('read_subvolume', [0, ni, 0, nx, 0, nz]), ('gen_trace_header', [tc - 1])]
+    def arrays():
+        for k in fc.stored:
+            try:
+                r.get_tracefield_values(int(k))
+            except Exception:
+                pass
+    if order == 'arrays-first':
+        arrays()
+    for op, a in warm:
+        readcalls.invoke(r, op, a)
+    if order != 'arrays-first':
+        arrays()
+    return r
 
 
 ACC = {'trace': 'get_trace', 'header': 'gen_trace_header', 'depth_slice': 'read_zslice'}
@@ -303,7 +350,7 @@ def replay(run, rep):
         return
     ans = session.eval_calls([fc], [(0, case['op'], case['args'])], run)[0]
     with env.quiet():
-        r = SgzReader(fc.path)
+        r = warm_reader(fc, case['warm'] if isinstance(case.get('warm'), str) else 'reads-first') if case.get('warm') else SgzReader(fc.path)
         out = readcalls.invoke(r, case['op'], case['args'])
         r.close()
     ok, detail = readcalls.compare(out, ans['alts'], fc.ref,
